@@ -36,3 +36,52 @@ Fixpoint hlsl_access_offset (p : list Z) (t : ty) : option Z :=
       | _ => None
       end
   end.
+
+(* ------------------------------------------------------------------------
+   Constant buffers: the HLSL packing rules for cbuffer members ("Packing Rules
+   for Constant Variables", Direct3D HLSL documentation): members are packed into
+   16-byte registers on 4-byte boundaries; a scalar or vector that would straddle a
+   register boundary starts at the next register; every array element, every matrix
+   row (a row_major matrix: one register per row) and every structure starts at a
+   register boundary; a structure's size is a multiple of 16; the last element of
+   an array / last row of a matrix is NOT padded, the following member may share
+   its register.  Used on the struct definitions naga emits for `cbuffer`s
+   (hlsl/internal/codegen/types.go writeStructDefinition: `int _padN_k` members,
+   matCx2 members decomposed into C float2 columns). *)
+Inductive htype :=
+| HS                                   (* 32-bit scalar *)
+| HV (n : Z)                           (* vector of n 32-bit components *)
+| HM (rows cols : Z)                   (* row_major matrix: `rows` registers of `cols` components *)
+| HA (e : htype) (n : Z)
+| HStruct (fs : list (bool * htype)).  (* true = padding / continuation member *)
+
+Definition hplace_small (cur size : Z) : Z :=
+  let o := round_up 4 cur in
+  if 16 <? o mod 16 + size then round_up 16 o else o.
+
+Fixpoint hsize (h : htype) : Z :=
+  match h with
+  | HS => 4
+  | HV n => 4 * n
+  | HM r c => (r - 1) * 16 + c * 4
+  | HA e n => (n - 1) * round_up 16 (hsize e) + hsize e
+  | HStruct fs =>
+      round_up 16
+        ((fix go (cur : Z) (l : list (bool * htype)) : Z :=
+            match l with
+            | [] => cur
+            | (_, f) :: r =>
+                let s := hsize f in
+                let o := match f with HS | HV _ => hplace_small cur s | _ => round_up 16 cur end in
+                go (o + s) r
+            end) 0 fs)
+  end.
+
+Definition hplace (cur : Z) (f : htype) : Z :=
+  match f with HS | HV _ => hplace_small cur (hsize f) | _ => round_up 16 cur end.
+
+Fixpoint hoffsets (cur : Z) (fs : list (bool * htype)) : list Z :=
+  match fs with
+  | [] => []
+  | (_, f) :: r => let o := hplace cur f in o :: hoffsets (o + hsize f) r
+  end.
